@@ -376,6 +376,24 @@ def promptness_oracle(sc, run):
     """C16: with return_as='generator', a `next()` issued when the next result's batch has already completed
     yields it without waiting for any further completion."""
     bad = []
+    if sc.nj == 1 and sc.ra in (1, 2):
+        # sequential path (n_jobs == 1): a task's result is available as soon as the task has run; it must be handed to
+        # the consumer before any LATER task is executed ("without waiting for later tasks")
+        failing, b0 = set(), 0
+        for c in sc.calls:
+            failing |= {b0 + p for p in c.fail}
+            b0 += c.n
+        pending = None
+        for e in run.log:
+            if e.startswith("exec "):
+                k = int(e.split()[1])
+                if pending is not None:
+                    bad.append(("C16", "result-not-prompt:sequential", dict(result=pending, waited_for=e)))
+                    break
+                pending = None if k in failing else k
+            elif e.startswith("yield ") or e.startswith(("call ", "raise", "stop", "closed", "dropped")):
+                pending = None
+        return bad
     if sc.ra != 1:
         return bad
     done = set()
